@@ -43,7 +43,11 @@ def run(sc, keep_sim=False, hold=None):
             stacks.append(st)
             for sub in sd.get('subs', []):
                 cb = st.cb(sub['cid'], 'sub', script=_script(sub.get('script'), st))
-                st.subscribe(cb, sub.get('filt'))
+                if sub.get('late') is not None:
+                    # a listener the application binds while the stack is already running (and has already seen traffic)
+                    sim.at(sub['late'], lambda st=st, cb=cb, sub=sub: st.subscribe(cb, sub.get('filt')))
+                else:
+                    st.subscribe(cb, sub.get('filt'))
             for ci, cd in enumerate(sd.get('cas', [])):
                 st.add_ca(cd['name'], cd.get('addr'), cd.get('bypass', False), cd.get('accept_all', False))
                 for cid in cd.get('subs', []):
